@@ -16,7 +16,7 @@ META = dict(
     property="C27",
     level="exploration",
     technique="complete enumeration of redirect chains up to length 3 over a small universe + Hypothesis chains up to length 8; hop-by-hop model with an RFC 3986 reference resolver",
-    level_text="All chains of length 0..3 over 6 Location forms x 3 status codes, for 8 (method, agent class, limit) combinations are enumerated; random chains of length 0..8 over origins {http,https} x {a,b} x {default port, explicit default port, 8080}, Location forms absolute / scheme-relative / path-absolute / relative / dot-segments / query-only / empty / missing, codes 301 302 303 307 308 (+ non-redirect codes), methods GET HEAD POST PUT, limits 0..5, sensitive + configured + innocuous request headers.",
+    level_text="All chains of length 0..3 over 6 Location forms x 3 status codes, for 8 (method, agent class, limit) combinations are enumerated; random chains of length 0..8 over origins {http,https} x {a,b} x {default port, explicit default port, 8080}, Location forms absolute / scheme-relative / path-absolute / relative / dot-segments / query-only / empty / missing, codes 301 302 303 307 308 (+ non-redirect codes), methods GET HEAD POST PUT, limits 0..5, sensitive + configured (also names with unusual Header-Case: letter after digit/underscore/dot, ETag, DNT, X-XSS-Protection) + innocuous request headers; in half of the random cases a second request goes through the same agent object, interleaved with the first by a generated schedule.",
     level_note="Trusted: the reference resolver in this file (RFC 3986 5.2.2 / 5.2.4, no fragments generated) and the origin function (scheme, host, effective port). The inner agent is a fake: nothing is sent; bodies are not generated. Only the statement's three default sensitive names plus the configured ones are asserted. A redirect the agent class documents as not followed automatically (non GET/HEAD method on 301/302/307/308 for RedirectAgent, on 307 for BrowserLikeRedirectAgent) must fail with PageRedirect and issue no request.",
     design_ref="§5 C27",
     rule="case = (agent class, limit, method, start URI, request headers, configured sensitive names, chain of (code, Location)). non-trivial = at least two redirects are followed and some hop after a cross-origin hop has a relative (non-absolute) Location; distinct by the whole case.",
@@ -149,7 +149,7 @@ _OBJ = None
 
 
 def _mk():
-    from twisted.internet.defer import succeed
+    from twisted.internet.defer import Deferred, succeed
     from twisted.web._newclient import Response
     from twisted.web.http_headers import Headers
     from twisted.web.iweb import IAgent
@@ -157,70 +157,69 @@ def _mk():
 
     @implementer(IAgent)
     class Inner:
-        def __init__(self, chain):
-            self.chain = chain
-            self.requests = []
-            self.responses = []
+        """Recording inner agent shared by all top-level requests of a case.
+        A request made while the harness works on behalf of top-level request
+        `owner` (its start, or the delivery of one of its responses) belongs to
+        that request: redirects are followed synchronously in the callback."""
 
-        def request(self, method, uri, headers=None, bodyProducer=None):
-            i = len(self.requests)
-            self.requests.append((method, uri,
-                                  None if headers is None else
-                                  [(n, list(vs)) for n, vs in headers.getAllRawHeaders()]))
-            if i < len(self.chain):
-                code, loc = self.chain[i]
-            else:
-                code, loc = 200, None
+        def __init__(self, chains, sync):
+            self.chains = chains            # owner -> chain
+            self.sync = sync
+            self.owner = 0
+            self.requests = {k: [] for k in chains}
+            self.responses = {k: [] for k in chains}
+            self.pending = {k: [] for k in chains}
+
+        def _response(self, owner, i):
+            chain = self.chains[owner]
+            code, loc = chain[i] if i < len(chain) else (200, None)
             h = Headers()
             if loc is not None:
                 h.addRawHeader(b"Location", loc)
             r = Response((b"HTTP", 1, 1), code, b"X", h, None)
-            self.responses.append(r)
-            return succeed(r)
+            self.responses[owner].append(r)
+            return r
+
+        def request(self, method, uri, headers=None, bodyProducer=None):
+            o = self.owner
+            i = len(self.requests[o])
+            self.requests[o].append((method, uri,
+                                     None if headers is None else
+                                     [(n, list(vs)) for n, vs in headers.getAllRawHeaders()]))
+            if self.sync:
+                return succeed(self._response(o, i))
+            d = Deferred()
+            self.pending[o].append((i, d))
+            return d
+
+        def step(self, owner):
+            """answer the oldest unanswered inner request of `owner`; False if none"""
+            if not self.pending[owner]:
+                return False
+            i, d = self.pending[owner].pop(0)
+            self.owner = owner
+            d.callback(self._response(owner, i))
+            return True
 
     return Inner
 
 
-def run_case(ctx, case):
-    global _OBJ
-    from twisted.web import client, error
+def _judge(ctx, case, agent_kind, limit, custom, req, reqs, responses, out, problems_found, tag):
+    """Compare what one top-level request did with the model; appends
+    (signature, detail) to problems_found, raises directly for stop-branch
+    violations, does the per-request bookkeeping."""
     from twisted.web._newclient import ResponseFailed
-    from twisted.web.http_headers import Headers
-    if _OBJ is None:
-        _OBJ = _mk()
-    Inner = _OBJ
-
-    agent_kind = case["agent"]
-    limit = case["limit"]
-    method = case["method"]
-    uri = case["uri"]
-    chain = [tuple(x) for x in case["chain"]]
-    custom = list(case.get("custom") or [])
-    hdrs = case.get("headers")
-
-    inner = Inner(chain)
-    cls = client.RedirectAgent if agent_kind == "strict" else client.BrowserLikeRedirectAgent
-    agent = cls(inner, redirectLimit=limit, sensitiveHeaderNames=custom)
-    headers = None
-    if hdrs is not None:
-        headers = Headers()
-        for n, v in hdrs:
-            headers.addRawHeader(n, v)
-    out = []
-    d = agent.request(method, uri, headers)
-    d.addCallbacks(lambda r: out.append(("ok", r)), lambda f: out.append(("err", f)))
-    ctx.check(len(out) == 1, "result-deferred-fired-%d-times" % len(out), case, repr(out))
+    method, uri, hdrs = req["method"], req["uri"], req.get("headers")
+    chain = [tuple(x) for x in req["chain"]]
+    ctx.check(len(out) == 1, "result-deferred-fired-%d-times" % len(out), case, tag + repr(out))
     kind, val = out[0]
-    reqs = inner.requests
-
-    ctx.check(len(reqs) >= 1 and reqs[0][0] == method and reqs[0][1] == uri, "first-request-altered", case, repr(reqs[:1]))
+    ctx.check(len(reqs) >= 1 and reqs[0][0] == method and reqs[0][1] == uri, "first-request-altered", case, tag + repr(reqs[:1]))
 
     # ---- credential confinement (independent of everything else) ---------------
     o0 = origin(uri)
     sens = set(DEFAULT_SENSITIVE) | {c.lower() for c in custom}
     crossed = False
     kept_same_origin = 0
-    problems_found = []       # (signature, detail); raised after the bookkeeping
     for j, (m, u, hs) in enumerate(reqs):
         oj = origin(u)
         names = {n.lower() for n, vs in (hs or [])}
@@ -230,7 +229,7 @@ def run_case(ctx, case):
             if leaked:
                 which = ("scheme" if oj[0] != o0[0] else "host" if oj[1] != o0[1] else "port")
                 problems_found.append(("sensitive-header-sent-cross-origin:" + which,
-                                       f"request {j} to {u!r} (origin {oj}, original {o0}) carries {leaked}"))
+                                       f"{tag}request {j} to {u!r} (origin {oj}, original {o0}) carries {leaked}"))
         elif j > 0 and names & sens:
             kept_same_origin += 1
 
@@ -242,8 +241,8 @@ def run_case(ctx, case):
         code, loc = chain[i] if i < len(chain) else (200, None)
         if code not in REDIRECTS:
             ctx.check(len(reqs) == i + 1, "request-after-final-response", case,
-                      f"response {i} has code {code} but {len(reqs)} requests were made: {reqs!r}"[:700])
-            ctx.check(kind == "ok" and val is inner.responses[i], "final-response-not-delivered", case, repr(out))
+                      f"{tag}response {i} has code {code} but {len(reqs)} requests were made: {reqs!r}"[:700])
+            ctx.check(kind == "ok" and val is responses[i], "final-response-not-delivered", case, tag + repr(out))
             break
         follow, fails = rule(agent_kind, code, exp_m)
         if follow:
@@ -259,9 +258,9 @@ def run_case(ctx, case):
             if not follow:
                 if "InfiniteRedirection" in fails:
                     ctx.violation("redirect-followed-beyond-limit", case,
-                                  f"limit {limit}, {count} already followed, yet request {i + 1} was made: {reqs!r}"[:700])
+                                  f"{tag}limit {limit}, {count} already followed, yet request {i + 1} was made: {reqs!r}"[:700])
                 ctx.violation("redirect-followed-where-documented-not-to", case,
-                              f"{agent_kind} agent, {exp_m!r} got {code}: must fail with {sorted(fails)}; next request {reqs[i + 1]!r}"[:700])
+                              f"{tag}{agent_kind} agent, {exp_m!r} got {code}: must fail with {sorted(fails)}; next request {reqs[i + 1]!r}"[:700])
             if nm not in follow:
                 if code in (307, 308):
                     sig = "method-not-preserved-on-%d:%s" % (code, agent_kind)
@@ -269,7 +268,7 @@ def run_case(ctx, case):
                     sig = "method-not-GET-after-303"
                 else:
                     sig = "wrong-method-after-%d:%s" % (code, agent_kind)
-                problems_found.append((sig, f"{agent_kind} agent: {exp_m!r} request got {code}; next request uses {nm!r}, allowed {sorted(follow)}"))
+                problems_found.append((sig, f"{tag}{agent_kind} agent: {exp_m!r} request got {code}; next request uses {nm!r}, allowed {sorted(follow)}"))
             want = ref_resolve(_nofrag(reqs[i][1]), loc)
             if _nofrag(nu) != want:
                 vs_original = ref_resolve(_nofrag(uri), loc)
@@ -277,7 +276,7 @@ def run_case(ctx, case):
                     sig = "later-hop-location-resolved-against-original-uri"
                 else:
                     sig = "wrong-redirect-target"
-                problems_found.append((sig, f"hop {i + 1}: request {i} went to {reqs[i][1]!r} and got Location {loc!r}: "
+                problems_found.append((sig, f"{tag}hop {i + 1}: request {i} went to {reqs[i][1]!r} and got Location {loc!r}: "
                                             f"next request goes to {nu!r}, expected {want!r} (original URI {uri!r})"))
             exp_m = nm
             count += 1
@@ -285,22 +284,24 @@ def run_case(ctx, case):
             continue
         # the agent stopped here
         ctx.check(bool(fails), "redirect-not-followed", case,
-                  f"{agent_kind} agent, {exp_m!r} got {code} Location {loc!r} with {count}/{limit} followed: result {out!r}"[:700])
-        ctx.check(kind == "err" and val.check(ResponseFailed) is not None, "stopped-without-ResponseFailed", case, repr(out))
+                  f"{tag}{agent_kind} agent, {exp_m!r} got {code} Location {loc!r} with {count}/{limit} followed: result {out!r}"[:700])
+        ctx.check(kind == "err" and val.check(ResponseFailed) is not None, "stopped-without-ResponseFailed", case, tag + repr(out))
         inner_f = val.value.reasons[0]
         got = type(inner_f.value).__name__
-        ctx.check(got in fails, "wrong-failure:" + got, case, f"allowed {sorted(fails)}; {inner_f!r}")
-        ctx.check(val.value.response is inner.responses[i], "failure-carries-wrong-response", case, "")
+        ctx.check(got in fails, "wrong-failure:" + got, case, f"{tag}allowed {sorted(fails)}; {inner_f!r}")
+        ctx.check(val.value.response is responses[i], "failure-carries-wrong-response", case, tag)
         break
     # ---- bookkeeping ------------------------------------------------------------
     hops = len(reqs) - 1
     ctx.count("hops=%d" % min(hops, 6) + ("+" if hops > 6 else ""))
-    ctx.count("agent=" + agent_kind)
     ctx.count("outcome=" + (kind if kind == "ok" else type(val.value.reasons[0].value).__name__))
     if crossed:
         ctx.count("cross-origin request made")
     if kept_same_origin:
         ctx.count("sensitive header kept on same-origin redirect")
+    special = {c.lower() for c in custom} & SPECIAL_CASED
+    if special and crossed and hdrs and {n.lower() for n, v in hdrs} & special:
+        ctx.count("configured name with unusual Header-Case sent, then cross-origin hop")
     rel_after_cross = False
     seen_cross = False
     for j in range(1, len(reqs)):
@@ -309,13 +310,85 @@ def run_case(ctx, case):
             rel_after_cross = True
         if origin(reqs[j][1]) != origin(reqs[j - 1][1]):
             seen_cross = True
-    if hops >= 2 and rel_after_cross:
-        ctx.nontrivial((agent_kind, limit, method, uri, hdrs, custom, chain))
-        ctx.count("nontrivial")
-        if len(chain) % 3 == 1:
-            ctx.sample(case)
     if any(m != method for m, u, h in reqs):
         ctx.count("method switched")
+    return hops >= 2 and rel_after_cross, crossed
+
+
+def run_case(ctx, case):
+    global _OBJ
+    from twisted.web import client
+    from twisted.web.http_headers import Headers
+    if _OBJ is None:
+        _OBJ = _mk()
+    Inner = _OBJ
+
+    agent_kind = case["agent"]
+    limit = case["limit"]
+    custom = list(case.get("custom") or [])
+    tops = [case]
+    if case.get("second") is not None:
+        tops.append(case["second"])
+    schedule = list(case.get("schedule") or [])
+    concurrent = len(tops) > 1
+
+    inner = Inner({k: [tuple(x) for x in t["chain"]] for k, t in enumerate(tops)}, sync=not concurrent)
+    cls = client.RedirectAgent if agent_kind == "strict" else client.BrowserLikeRedirectAgent
+    # ONE agent object serves all top-level requests of the case
+    agent = cls(inner, redirectLimit=limit, sensitiveHeaderNames=custom)
+    outs = {k: [] for k in range(len(tops))}
+    started = set()
+
+    def start(k):
+        t = tops[k]
+        headers = None
+        if t.get("headers") is not None:
+            headers = Headers()
+            for n, v in t["headers"]:
+                headers.addRawHeader(n, v)
+        started.add(k)
+        inner.owner = k
+        d = agent.request(t["method"], t["uri"], headers)
+        d.addCallbacks(lambda r: outs[k].append(("ok", r)), lambda f: outs[k].append(("err", f)))
+
+    start(0)
+    overlap = False
+    for k in schedule:
+        if k >= len(tops):
+            continue
+        if k not in started:
+            if any(inner.pending[j] for j in started):
+                overlap = True
+            start(k)
+        else:
+            inner.step(k)
+    for k in range(len(tops)):
+        if k not in started:
+            if any(inner.pending[j] for j in started):
+                overlap = True
+            start(k)
+        while inner.step(k):
+            pass
+
+    problems_found = []
+    nt = False
+    crossed_any = False
+    for k, t in enumerate(tops):
+        tag = "" if not concurrent else "[request %d] " % k
+        a, c = _judge(ctx, case, agent_kind, limit, custom, t, inner.requests[k], inner.responses[k], outs[k],
+                      problems_found, tag)
+        nt = nt or a
+        crossed_any = crossed_any or c
+    ctx.count("agent=" + agent_kind)
+    if concurrent:
+        ctx.count("two requests through one agent object: " + ("in flight together" if overlap else "one after the other"))
+        if overlap and origin(tops[0]["uri"]) != origin(tops[1]["uri"]) and crossed_any:
+            ctx.count("two requests in flight, different origins, a cross-origin hop")
+    if nt:
+        ctx.nontrivial((agent_kind, limit, custom, [(t["method"], t["uri"], t.get("headers"), t["chain"]) for t in tops], schedule))
+        ctx.count("nontrivial")
+        if len(case["chain"]) % 3 == 1:
+            ctx.sample(case)
 
     # ---- report: a root cause that is not a listed finding goes first ------------
     problems_found.sort(key=lambda p: p[0] in ctx.known_sigs)
@@ -349,18 +422,25 @@ def _location(k, a, b):
 
 
 SENS_HDRS = [b"Authorization", b"authorization", b"Cookie", b"COOKIE", b"Proxy-Authorization", b"X-Token", b"x-token",
-             b"X-Api-Key"]
+             b"X-Api-Key",
+             # names whose Header-Case is not what a naive title-casing gives: a letter after a digit / '_' / '.',
+             # and the names Headers capitalizes specially
+             b"X-3scale-Secret", b"x_api_key", b"X-Auth.Session", b"ETag", b"dnt", b"X-XSS-Protection",
+             b"x-b3-traceid", b"Www-Authenticate-2fa"]
+# lower-cased names of that kind (for the class histogram only)
+SPECIAL_CASED = {b"x-3scale-secret", b"x_api_key", b"x-auth.session", b"etag", b"dnt", b"x-xss-protection",
+                 b"www-authenticate-2fa"}
 PLAIN_HDRS = [b"Accept", b"User-Agent", b"X-Plain"]
 ALL_HDRS = SENS_HDRS + PLAIN_HDRS
 CODES_TAME = [301, 302, 303, 307, 308]
 CODES_WILD = [301, 302, 303, 307, 308, 301, 302, 303, 307, 308, 200, 404, 304, 300]
-CUSTOMS = [[], [b"X-Token"], [b"x-tOkEn", b"X-API-KEY"], [b"x-api-key"]]
+CUSTOMS = [[], [b"X-Token"], [b"x-tOkEn", b"X-API-KEY"], [b"x-api-key"],
+           [b"X-3scale-Secret", b"x_api_key"], [b"x-auth.session", b"etag", b"DNT"],
+           [b"X-Xss-Protection", b"X_API_KEY", b"WWW-Authenticate-2FA"], [b"x-3SCALE-secret", b"ETag", b"X-Token"]]
 METHODS = [b"GET", b"GET", b"GET", b"HEAD", b"POST", b"PUT"]
 
 
-def _build(t):
-    tame, steps, hsel, misc = t
-    tame = tame > 0          # mostly chains that can be followed to the end
+def _build_req(tame, steps, hsel, meth, o, p):
     chain = []
     for c, k, a, b in steps:
         if tame:
@@ -376,27 +456,50 @@ def _build(t):
             if nm.lower() not in seen:
                 seen.add(nm.lower())
                 hdrs.append([nm, b"secret-%d" % i])
+    return dict(method=METHODS[meth], uri=ORIGINS[o] + PATHS[p], headers=hdrs, chain=chain)
+
+
+def _build(t):
+    tame, steps, hsel, misc, second = t
+    tame = tame > 0          # mostly chains that can be followed to the end
     lim, cust, meth, agent, o, p = misc
-    n = len(chain)
+    case = _build_req(tame, steps, hsel, meth, o, p)
+    n = len(case["chain"])
     limit = [n, n + 1, 8, 20][lim % 4] if (tame and lim >= 6) else lim % 6
-    return dict(agent=["strict", "browser"][agent], limit=limit, method=METHODS[meth],
-                uri=ORIGINS[o] + PATHS[p], headers=hdrs, custom=CUSTOMS[cust], chain=chain)
+    case.update(agent=["strict", "browser"][agent], limit=limit, custom=CUSTOMS[cust])
+    if second is not None:
+        # a second request through the SAME agent object, interleaved with the
+        # first one as the schedule says (0 / 1 = next step of that request)
+        steps2, hsel2, (meth2, o2, p2), schedule, aim = second
+        case["second"] = _build_req(True, steps2, hsel2, meth2, o2, p2)
+        case["schedule"] = schedule
+        if aim and case["chain"]:
+            # the first request is redirected to where the second one is going
+            k = (aim - 1) % len(case["chain"])
+            case["chain"][k] = (case["chain"][k][0], case["second"]["uri"])
+    return case
 
 
 def redirect_case():
     step = st.tuples(st.integers(0, 13), st.integers(0, 9), st.integers(0, 11), st.integers(0, 10))
+    hsel = st.one_of(st.none(), st.lists(st.integers(0, len(ALL_HDRS) - 1), max_size=5))
+    second = st.tuples(st.lists(step, max_size=3), hsel,
+                       st.tuples(st.integers(0, 5), st.integers(0, len(ORIGINS) - 1), st.integers(0, len(PATHS) - 1)),
+                       st.lists(st.integers(0, 1), max_size=10), st.integers(0, 3))
     return st.tuples(
         st.integers(0, 3),
         st.lists(step, max_size=8),
-        st.one_of(st.none(), st.lists(st.integers(0, len(ALL_HDRS) - 1), max_size=5)),
-        st.tuples(st.integers(0, 23), st.integers(0, 3), st.integers(0, 5), st.integers(0, 1),
+        hsel,
+        st.tuples(st.integers(0, 23), st.integers(0, len(CUSTOMS) - 1), st.integers(0, 5), st.integers(0, 1),
                   st.integers(0, len(ORIGINS) - 1), st.integers(0, len(PATHS) - 1)),
+        st.one_of(st.none(), second),
     ).map(_build)
 
 
 SMALL_LOCS = [b"http://b/p/q", b"https://a/s/t", b"/m", b"r", b"../u", None]
 SMALL_CODES = [302, 303, 308]
-SMALL_HDRS = [[b"Authorization", b"s1"], [b"X-Token", b"s2"], [b"Accept", b"*/*"]]
+SMALL_HDRS = [[b"Authorization", b"s1"], [b"X-Token", b"s2"], [b"Accept", b"*/*"], [b"x-3scale-Secret", b"s3"], [b"ETag", b"s4"]]
+SMALL_CUSTOM = [b"x-token", b"X-3SCALE-secret", b"etag"]
 
 
 def _small_cases(arg):
@@ -406,10 +509,33 @@ def _small_cases(arg):
     for n in range(0, 4):
         for chain in itertools.product(steps, repeat=n):
             yield dict(agent=agent, limit=limit, method=method, uri=b"http://a/x/y", headers=SMALL_HDRS,
-                       custom=[b"x-token"], chain=list(chain))
+                       custom=SMALL_CUSTOM, chain=list(chain))
+
+
+SMALL_SCHEDULES = [[1, 0, 0, 1, 0, 1], [0, 1, 0, 1, 0, 1], [1, 1, 0, 0, 0], [0, 0, 1, 1]]
+SMALL_SECOND = [(u, ch) for u in (b"http://b/p/q", b"https://a/s/t", b"http://a/z")
+                for ch in ([], [(302, b"http://a/x/z")], [(302, b"r")])]
+
+
+def _small_concurrent_cases(agent):
+    """two requests through one agent object: the first over all chains of
+    length 0..2, the second from three origins, four interleavings"""
+    import itertools
+    steps = [(c, l) for c in (302, 303) for l in SMALL_LOCS]
+    for n in range(0, 3):
+        for chain in itertools.product(steps, repeat=n):
+            for u2, ch2 in SMALL_SECOND:
+                for sched in SMALL_SCHEDULES:
+                    yield dict(agent=agent, limit=5, method=b"GET", uri=b"http://a/x/y", headers=SMALL_HDRS,
+                               custom=SMALL_CUSTOM, chain=list(chain),
+                               second=dict(method=b"GET", uri=u2, headers=[[b"Cookie", b"c2"]], chain=list(ch2)),
+                               schedule=sched)
 
 
 def _small_shard(ctx, arg):
+    if arg[0] == "concurrent":
+        enumerate_run(ctx, _small_concurrent_cases(arg[1]), run_case, stop_after_violation=False)
+        return
     enumerate_run(ctx, _small_cases(arg), run_case, stop_after_violation=False)
 
 
@@ -421,9 +547,11 @@ def run(ctx):
     import twisted.web.client  # noqa: imported before the fork so that the shards share it
     args = [(b"GET", "strict", 5), (b"GET", "browser", 5), (b"POST", "strict", 5), (b"POST", "browser", 5),
             (b"HEAD", "browser", 2), (b"GET", "strict", 2), (b"GET", "browser", 1), (b"POST", "browser", 2)]
-    ctx.shards(_small_shard, args)
+    ctx.shards(_small_shard, args + [("concurrent", "strict"), ("concurrent", "browser")])
     ctx.extra["small_scope"] = ("all chains of length 0..3 over 3 codes x 6 Location forms, start http://a/x/y, for "
-                                + ", ".join(f"{m.decode()}/{a}/limit {l}" for m, a, l in args))
+                                + ", ".join(f"{m.decode()}/{a}/limit {l}" for m, a, l in args)
+                                + "; two requests through one agent object: first over all chains of length 0..2 (2 codes x 6 Locations), "
+                                  "second from 3 origins x 3 chains, 4 interleavings, both agent classes")
     ctx.exhaustive = False
     if ctx.has_violation():
         return
